@@ -211,6 +211,13 @@ def body_of(style):
     return out
 
 
+def var_comps(text):
+    try:
+        return comps(css.PropertyValue(cssText=text))
+    except Exception as e:      # a variable without a parsable value: reported as such, judged by the contract
+        return [{"t": "#unparsable:" + type(e).__name__, "x": str(text)}]
+
+
 def query_text(m):
     """text of one media query; a comment next to it is not part of the query (where a comment inside a prelude is kept is not
     something the DOM distinguishes)"""
@@ -242,7 +249,7 @@ def project_rule(r):
         return {"k": "margin", "name": r.margin, "body": body_of(r.style)}
     if t == "VARIABLES_RULE":
         return {"k": "variables", "text": re.sub(r"\s+", " ", r.cssText).strip(),
-                "vars": [{"name": n, "value": comps(css.PropertyValue(cssText=r.variables.getVariableValue(n)))} for n in r.variables.keys()]}
+                "vars": [{"name": n, "value": var_comps(r.variables.getVariableValue(n))} for n in r.variables.keys()]}
     return {"k": "?" + t}
 
 
